@@ -15,11 +15,15 @@
        invented, none attached to the wrong property;
      C05_shape_independence: every item-valued property of every type, given as an IRI string, as an embedded
        object or as an array of those, decodes to the item, the one-element list, and the list.
-   PARTIAL (still): "the decoded value equals the value the document was generated from" for a whole document
-   of the vocabulary model (C05_reads for scalar, time, text and struct-valued properties taken together) and the
-   fixpoint clause (needs the encoder side, C01) are not proved; they are evaluated natively on documents
-   written by encoding/json from an independent document model (type x property subset x shape x nesting), on
-   the repository's mock documents and on structure-preserving mutations of them. *)
+   The FIXPOINT clause and the whole-document clause: the last block of this file (builder b42) - closure of the
+   round-trip class under the normal form, the fixpoint for every value of the class and every decoded value in it,
+   the bytes stable from the first re-encoding on, and every document EQUIVALENT to the one the encoder writes decodes
+   to the normal form.
+   PARTIAL (still): whole documents in shapes the encoder never writes (a one-element array in an item position, a
+   language map with one entry), values of source / endpoints / publicKey, IRIs outside the plain URL grammar and
+   nesting beyond 64 are outside that class; an independent Coq document writer is not built.  They are evaluated
+   natively on documents written by encoding/json from an independent document model (type x property subset x shape
+   x nesting), on the repository's mock documents and on structure-preserving mutations of them. *)
 From AP.Model Require Import Prelude Bytes Text WsDoc Vocab Layout Json JsonLeaf JsonTables JsonEnc JsonCheck JsonDec JsonCodec SpecTags DocEquiv Shape.
 From AP.Gen Require Import Layout TypeLists Switches JsonW JsonR.
 From AP.Model Require Import Url CollIri UrlU.
@@ -381,4 +385,226 @@ Proof.
       rewrite <- F1, <- Hv. apply (Sl [c05_alice; c05_bob]); [rewrite T1; vm_compute; reflexivity|exact Hl2].
     + destruct (C05_shape_independence 63 _ _ _ _ Hl rs r2 Hrs I2) as [_ S2]. destruct (S2 G2) as [_ [Sl _]].
       rewrite <- F2, <- Hv. apply (Sl [c05_alice; c05_bob]); [rewrite T2; vm_compute; reflexivity|exact Hl2|discriminate].
+Qed.
+
+(* ====================================================================================================
+   The FIXPOINT clause and the whole-document clause (builder b42; Proofs/C05FixP.v, C05FixInstP.v).
+   "Encoding that value and decoding again yields the same value, and the encoded bytes no longer change."
+
+   wf_doc / norm_doc are the class and the normal form of the round-trip theorem (Props/C01.v: wf_vocab, norm -
+   the same definitions, wf_item / norm_item of Model/JsonNorm.v on the generated layout and dispatch tables).
+   Reading (DESIGN 0.3): the value comes back up to that documented normal form after the FIRST re-encoding (a
+   one-element array in a single-item property has become its element, a lone language-tagged text has lost its tag,
+   instants are UTC whole seconds, value forms are pointer forms, fields in struct order); from then on nothing changes.
+
+   (1) CLOSURE (C05_domain_closed): wf_doc x -> wf_doc (norm_doc x), and the normal form nests no deeper.  So the
+       round-trip theorem applies again to what it returns.  For every layout without a repeated field.
+   (2) FIXPOINT: y := norm_doc x is a fixpoint of encode-then-decode (C05_normal_form_is_fixpoint), stated also for
+       every DECODED value in the class (C05_fixpoint_of_decoded), for two rounds (C05_two_rounds) and for any number
+       of rounds (C05_rounds_stable: round 1 gives (b1, norm x), every later round gives (b2, norm x) with one and the
+       same b2).
+       (2b) THE BYTES (Proofs/C05BytesP.v): enc (norm_doc x) = enc x on the class - the second encoding IS the first, so
+       "the encoded bytes no longer change" holds from the first re-encoding on (C05_bytes_stable, for EVERY write
+       table: the tree interpreter sees a field list through getf only, and what the normal form changes in a
+       well-formed value is invisible to every writer and guard); C05_rounds_all: every round, the first included,
+       yields the same bytes and the normal form; C05_fixpoint_of_decoded_bytes for decoded values.  Evaluated on
+       the real code's answers for every decoded value of Cases_C05_fix that lies in the class.
+   (3) WHOLE DOCUMENTS (C05_equivalent_document_reads / _bytes): for every value x of the class, EVERY document that
+       is equivalent (C05_member_order, C05_unknown_member, C05_first_duplicate_wins, C05_string_escapes, inside
+       members and elements at any depth; insignificant white space) to the document the encoder writes for x decodes
+       to norm_doc x - "none ignored, none invented, none attached to the wrong property" for the whole value, any
+       member order at every level, any unknown members (@context, extensions), any escaping, any white space.
+       What the class covers: all 14 struct kinds with a type name of their family; every property of the layout
+       except source / endpoints / publicKey; an item-valued property as IRI string (absolute URL of Model/Url.v),
+       embedded object, or array of two or more of those with distinct ids (one element in a LIST property: as the
+       bare element); text as a plain string (one entry) or as a language map under <term>Map (two or more entries,
+       distinct tags); instants, durations, numbers, booleans in the ranges of C01's leaf theorems; nesting <= 64.
+       NOT covered by (3) (they are not equivalent to any document the encoder writes; field by field they are
+       characterised by C05_shape_independence / C05_fields_read, and evaluated natively): a one-element ARRAY in any
+       item or list position, a language map with a SINGLE entry, values of source / endpoints / publicKey, IRIs outside
+       the plain URL grammar.  An independent Coq document writer (doc_of x shapes) with its own theorem is not
+       built: every shape it could choose beyond those above needs new reader-side definedness lemmas (that the
+       model's loader does not abstain on the variant), which C05_shape_independence assumes rather than proves.
+   ==================================================================================================== *)
+From AP.Model Require Import Pred JsonTree JsonNorm JsonRoundCheck.
+From AP.Proofs Require Import C01TreeWfP C01RoundP C01NormP C05FixP C05BytesP C05FixInstP.
+
+(* ---- table conditions the theorems below rest on (re-established on the regenerated tables on every run) ---- *)
+Theorem C05_fix_tables :
+  kinds_ok jw_tables jr_tables layout_of = true /\ terms_raw_ok jw_tables = true /\ keys_roles_ok jr_tables = true.
+Proof. exact (conj fix_round_tables (conj fix_terms_closed key_roles_inst)). Qed.
+
+(* ---- (1) closure ---- *)
+(* generic: every layout without a repeated field, every registry / dispatch *)
+Theorem C05_domain_closed_generic : forall lay reg lsw acts actors links,
+  (forall k, NoDup (map fd_fid (lay k))) ->
+  forall x, wf_item lay reg lsw acts actors links x = true ->
+  wf_item lay reg lsw acts actors links (norm_item lay x) = true /\ (ddepth (norm_item lay x) <= ddepth x)%nat.
+Proof.
+  exact (fun lay reg lsw acts actors links H x Hw =>
+           conj (wf_norm lay reg lsw acts actors links H x Hw) (ddepth_norm lay reg lsw acts actors links H x Hw)).
+Qed.
+Theorem C05_domain_closed : forall x, wf_doc x = true -> wf_doc (norm_doc x) = true /\ (ddepth (norm_doc x) <= ddepth x)%nat.
+Proof. exact (fun x Hw => conj (wf_norm_inst x Hw) (ddepth_norm_inst x Hw)). Qed.
+Theorem C05_normal_form_idempotent : forall x, norm_doc (norm_doc x) = norm_doc x.
+Proof. exact norm_idem_inst. Qed.
+
+(* ---- (2) the fixpoint ---- *)
+(* generic over the tables *)
+Theorem C05_fixpoint_generic : forall jw jr lay reg lsw acts actors links,
+  kinds_ok jw jr lay = true -> terms_raw_ok jw = true -> (forall k, NoDup (map fd_fid (lay k))) ->
+  forall x, wf_item lay reg lsw acts actors links x = true -> (ddepth x <= 64)%nat ->
+  exists b1 b2,
+    marshal_json jw x = Some b1 /\ unmarshal_json jr lay reg lsw acts actors links b1 = Some (Ok (norm_item lay x)) /\
+    marshal_json jw (norm_item lay x) = Some b2 /\ b2 <> [] /\
+    unmarshal_json jr lay reg lsw acts actors links b2 = Some (Ok (norm_item lay x)).
+Proof. exact two_rounds. Qed.
+
+(* the normal form of a value of the class is a fixpoint: its encoding decodes to itself *)
+Theorem C05_normal_form_is_fixpoint : forall x, wf_doc x = true -> (ddepth x <= 64)%nat ->
+  exists b, enc (norm_doc x) = Some b /\ b <> [] /\ dec b = Some (Ok (norm_doc x)).
+Proof. exact norm_is_fixpoint_inst. Qed.
+
+(* first round: the normal form; second round: the same value again *)
+Theorem C05_two_rounds : forall x, wf_doc x = true -> (ddepth x <= 64)%nat ->
+  exists b1 b2, enc x = Some b1 /\ dec b1 = Some (Ok (norm_doc x)) /\
+                enc (norm_doc x) = Some b2 /\ b2 <> [] /\ dec b2 = Some (Ok (norm_doc x)).
+Proof. exact two_rounds_inst. Qed.
+
+(* for every DECODED value of the class, whatever document d it was decoded from: encode, decode -> y1 = its normal
+   form, which is again in the class; encode y1, decode -> y1 *)
+Theorem C05_fixpoint_of_decoded : forall d y, dec d = Some (Ok y) -> wf_doc y = true -> (ddepth y <= 64)%nat ->
+  exists b1 y1 b2, enc y = Some b1 /\ dec b1 = Some (Ok y1) /\ y1 = norm_doc y /\ wf_doc y1 = true /\
+                   enc y1 = Some b2 /\ dec b2 = Some (Ok y1).
+Proof. exact decoded_fixpoint_inst. Qed.
+(* ... and when the decoded value is its own normal form (no one-element array in a single-item property, no lone
+   tagged text: what most documents decode to) the very first round changes nothing *)
+Theorem C05_fixpoint_of_decoded_normal : forall d y,
+  dec d = Some (Ok y) -> wf_doc y = true -> (ddepth y <= 64)%nat -> norm_doc y = y ->
+  exists b, enc y = Some b /\ dec b = Some (Ok y).
+Proof. exact decoded_normal_fixpoint_inst. Qed.
+
+(* any number of rounds (round_doc v = encode v, decode; rounds_doc n = n+1 rounds in a row, returning the bytes and
+   the value of the last): after the first round neither the value nor the bytes change *)
+Theorem C05_rounds_stable : forall x, wf_doc x = true -> (ddepth x <= 64)%nat ->
+  exists b1 b2, rounds_doc 0 x = Some (b1, norm_doc x) /\ forall n, rounds_doc (S n) x = Some (b2, norm_doc x).
+Proof. exact rounds_stable_inst. Qed.
+
+(* ---- (2b) the bytes ---- *)
+(* generic: every write table, every layout without a repeated field - the normal form of a well-formed value is
+   written as the value itself is, tree and bytes *)
+Theorem C05_bytes_stable_generic : forall jw lay reg lsw acts actors links,
+  (forall k, NoDup (map fd_fid (lay k))) ->
+  forall x, wf_item lay reg lsw acts actors links x = true ->
+  tree_of jw (norm_item lay x) = tree_of jw x /\ marshal_json jw (norm_item lay x) = marshal_json jw x.
+Proof.
+  exact (fun jw lay reg lsw acts actors links H x Hw =>
+           conj (tree_of_norm jw lay reg lsw acts actors links H x Hw) (marshal_norm jw lay reg lsw acts actors links H x Hw)).
+Qed.
+Theorem C05_bytes_stable : forall x, wf_doc x = true -> enc (norm_doc x) = enc x.
+Proof. exact enc_norm_inst. Qed.
+
+(* every round - the first included - writes the same non-empty bytes and reads the normal form *)
+Theorem C05_rounds_all : forall x, wf_doc x = true -> (ddepth x <= 64)%nat ->
+  exists b, b <> [] /\ enc x = Some b /\ forall n, rounds_doc n x = Some (b, norm_doc x).
+Proof. exact rounds_all_inst. Qed.
+
+(* for every DECODED value of the class: encode -> b, decode -> its normal form (again in the class), encode -> b *)
+Theorem C05_fixpoint_of_decoded_bytes : forall d y, dec d = Some (Ok y) -> wf_doc y = true -> (ddepth y <= 64)%nat ->
+  exists b, enc y = Some b /\ dec b = Some (Ok (norm_doc y)) /\ enc (norm_doc y) = Some b /\ wf_doc (norm_doc y) = true.
+Proof. exact decoded_fixpoint_bytes_inst. Qed.
+
+(* ---- (3) whole documents ---- *)
+Theorem C05_written_document_exists : forall x, wf_doc x = true -> (ddepth x <= 64)%nat ->
+  exists v, tree_of jw_tables x = Some (Some v).
+Proof. exact written_tree_inst. Qed.
+
+Theorem C05_equivalent_document_reads_generic : forall jw jr lay reg lsw acts actors links,
+  kinds_ok jw jr lay = true -> keys_roles_ok jr = true ->
+  forall x v d, wf_item lay reg lsw acts actors links x = true -> (ddepth x <= 64)%nat ->
+  tree_of jw x = Some (Some v) -> keys_clean d = true -> doc_equiv (known_of jr) (text_of jr) v d ->
+  keys_clean v = true /\ unmarshal_to_item jr lay reg lsw acts actors links d = Some (norm_item lay x).
+Proof. exact equivalent_document_reads. Qed.
+
+Theorem C05_equivalent_document_reads : forall x v d, wf_doc x = true -> (ddepth x <= 64)%nat ->
+  tree_of jw_tables x = Some (Some v) -> keys_clean d = true -> doc_equiv known text v d ->
+  dec_tree d = Some (norm_doc x).
+Proof. exact equivalent_document_reads_inst. Qed.
+
+Theorem C05_equivalent_document_bytes : forall x v pre t post, wf_doc x = true -> (ddepth x <= 64)%nat ->
+  tree_of jw_tables x = Some (Some v) ->
+  wf_ws pre = true -> wf_ws post = true -> wf_wt t = true -> (wdepth t <= 300)%nat ->
+  keys_clean (strip t) = true -> doc_equiv known text v (strip t) ->
+  dec (pre ++ wprint t ++ post) = Some (Ok (norm_doc x)).
+Proof. exact equivalent_document_bytes_inst. Qed.
+
+(* ---- non-vacuity: a Like activity given with its fields in no particular order, in value form, whose object is a
+   one-element list, whose actor is embedded and carries a lone tagged name, with a two-language summary, two
+   addressees and an instant with nanoseconds and a zone: in the class, nesting 2, NOT its own normal form ---- *)
+Definition ex05_actor : item :=
+  IObj false KActor [(F_Name, FNlv (Some [(B "en", B "Alice")])); (F_Type, FStr (B "Person"));
+                     (F_ID, FStr (B "https://example.com/actors/alice"))].
+Definition ex05 : item :=
+  IObj false KActivity
+    [(F_Published, FTime {| vsecs := 1714550400; vnanos := 5; voff := 7200 |});
+     (F_Type, FStr (B "Like"));
+     (F_Object, FItem (IItems false (Some [IIri true (B "https://example.com/notes/1")])));
+     (F_To, FItems (Some [IIri false (B "https://example.com/actors/alice"); IIri false (B "https://example.com/actors/bob")]));
+     (F_Actor, FItem ex05_actor);
+     (F_Summary, FNlv (Some [(B "en", B "liked"); (B "fr", B "aime")]));
+     (F_ID, FStr (B "https://example.com/activities/1"))].
+Definition ex05_norm : item :=
+  IObj true KActivity
+    [(F_ID, FStr (B "https://example.com/activities/1")); (F_Type, FStr (B "Like"));
+     (F_Published, FTime {| vsecs := 1714550400; vnanos := 0; voff := 0 |});
+     (F_Summary, FNlv (Some [(B "en", B "liked"); (B "fr", B "aime")]));
+     (F_To, FItems (Some [IIri false (B "https://example.com/actors/alice"); IIri false (B "https://example.com/actors/bob")]));
+     (F_Actor, FItem (IObj true KActor [(F_ID, FStr (B "https://example.com/actors/alice")); (F_Type, FStr (B "Person"));
+                                        (F_Name, FNlv (Some [(B "-", B "Alice")]))]));
+     (F_Object, FItem (IIri false (B "https://example.com/notes/1")))].
+Example C05_fixpoint_hypotheses :
+  wf_doc ex05 = true /\ ddepth ex05 = 2%nat /\ norm_doc ex05 = ex05_norm /\ ex05_norm <> ex05 /\
+  wf_doc ex05_norm = true /\ norm_doc ex05_norm = ex05_norm.
+Proof.
+  split; [vm_compute; reflexivity|]. split; [vm_compute; reflexivity|]. split; [vm_compute; reflexivity|].
+  split; [discriminate|]. split; vm_compute; reflexivity.
+Qed.
+(* the rounds evaluated: one and the same 325 bytes in every round (C05_rounds_all) *)
+Example C05_rounds_example :
+  exists b, rounds_doc 0 ex05 = Some (b, ex05_norm) /\ rounds_doc 1 ex05 = Some (b, ex05_norm) /\
+            rounds_doc 3 ex05 = Some (b, ex05_norm) /\ length b = 325%nat.
+Proof. eexists. split; [vm_compute; reflexivity|]. split; [vm_compute; reflexivity|]. split; vm_compute; reflexivity. Qed.
+
+(* a document an independent writer might produce for that value: @context first, the members of the top level in
+   the reverse of the encoder's order, surrounded by white space - equivalent to the written document, hence it
+   decodes to the normal form *)
+Definition ex05_members : list (bytes * fjv) :=
+  Eval vm_compute in match tree_of jw_tables ex05 with Some (Some (FObj kvs)) => kvs | _ => [] end.
+Definition ex05_doc : fjv :=
+  FObj ((B "@context", Text.FStr (B "https://www.w3.org/ns/activitystreams")) :: rev ex05_members).
+Example C05_equivalent_document_example :
+  tree_of jw_tables ex05 = Some (Some (FObj ex05_members)) /\ length ex05_members = 7%nat /\
+  doc_equiv known text (FObj ex05_members) ex05_doc /\
+  dec_tree ex05_doc = Some ex05_norm /\
+  dec (B " " ++ wprint (wt_of_fjv ex05_doc) ++ hx "0a") = Some (Ok ex05_norm).
+Proof.
+  assert (T : tree_of jw_tables ex05 = Some (Some (FObj ex05_members))) by (vm_compute; reflexivity).
+  assert (E : doc_equiv known text (FObj ex05_members) ex05_doc).
+  { apply de_trans with (FObj ((B "@context", Text.FStr (B "https://www.w3.org/ns/activitystreams")) :: ex05_members)).
+    - apply de_step. apply (C05_unknown_member [] (B "@context") _ ex05_members). vm_compute. reflexivity.
+    - apply de_step. apply C05_member_order.
+      + apply perm_skip. apply Permutation_rev.
+      + repeat constructor; vm_compute; intuition discriminate. }
+  assert (W : wf_doc ex05 = true) by (vm_compute; reflexivity).
+  assert (D : (ddepth ex05 <= 64)%nat) by (vm_compute; lia).
+  assert (N : norm_doc ex05 = ex05_norm) by (vm_compute; reflexivity).
+  split; [exact T|]. split; [reflexivity|]. split; [exact E|]. split.
+  - rewrite <- N. apply (C05_equivalent_document_reads ex05 (FObj ex05_members) ex05_doc W D T); [vm_compute; reflexivity|exact E].
+  - rewrite <- N. apply (C05_equivalent_document_bytes ex05 (FObj ex05_members) (B " ") (wt_of_fjv ex05_doc) (hx "0a") W D T).
+    + vm_compute. reflexivity.
+    + vm_compute. reflexivity.
+    + vm_compute. reflexivity.
+    + vm_compute. lia.
+    + vm_compute. reflexivity.
+    + rewrite strip_wt_of_fjv. exact E.
 Qed.
